@@ -2,7 +2,13 @@ module github.com/meshplus/bitxhub/verifharness
 
 go 1.14
 
-require github.com/meshplus/bitxhub v0.0.0
+require (
+	github.com/meshplus/bitxhub v0.0.0
+	github.com/meshplus/bitxhub-core v1.28.1-0.20230411032641-11245b4adfc5
+	github.com/meshplus/bitxhub-kit v1.28.0
+	github.com/meshplus/bitxhub-model v1.28.1-0.20230411032618-24ca54eec606
+	github.com/sirupsen/logrus v1.8.1
+)
 
 replace github.com/meshplus/bitxhub => /repo
 
